@@ -105,6 +105,7 @@ BASES = [
     base("http", "example.com", segs=["go"], items=[("url", "http://target.com/page")]),
     base("http", "example.com", segs=["app"], frag="/route/X"),                       # routing fragments (kept by normalize_url)
     base("https", "example.com", frag="!/users/John"),
+    base("http", "example.com", segs=["p"], items=[("tag", "b"), ("tag", "a"), ("tag", None)]),     # one key, several values: the order of items is irrelevant
     base("http", "example.com", user="z\u200bw", segs=["a\u200bb", "\u00ad"], items=[("k", "\ufeffv")], frag="x\u2060y"),      # invisible (format) characters are not control characters
 ]
 
